@@ -42,6 +42,14 @@ UNOPS = ["-", "+", "~", "not", "abs", "int", "float", "nat", "bool"]
 FUNC2 = ["divmod", "pow"]
 
 
+def rfn(rty: str) -> str:
+    """Reporting function for a result of type `rty`.  The public `result` overload lists its int
+    variant before its nat variant, so a nat argument is coerced to int and values >= 2^63 come out
+    negative (known finding, keyed under C17); nat results are therefore observed through the nat
+    variant directly, which reports them faithfully."""
+    return "_result_nat" if rty == "nat" else "result"
+
+
 def plan(tier, seed):
     n = 96 if tier == "quick" else 2400
     return {"n_cases": n, "floors": {"evaluations": n // 2}}
@@ -227,7 +235,8 @@ def expr_src(op, names):
 
 
 HDR = ("from guppylang import guppy\n"
-       "from guppylang.std.builtins import result, nat\n\n")
+       "from guppylang.std.builtins import result, nat\n"
+       "from guppylang.std.platform import _result_nat\n\n")
 
 
 def feq(a, b):
@@ -306,9 +315,9 @@ def run_case(ctx, rng, idx, params, tier):
         ex = expr_src(op, [f"a{i}" for i in range(len(tys))])
         if op == "divmod":
             text.append(f"@guppy\ndef f{k}({ps}) -> None:\n    q, r = {ex}\n"
-                        f"    result(\"q{k}\", q)\n    result(\"r{k}\", r)\n\n")
+                        f"    {rfn(rty)}(\"q{k}\", q)\n    {rfn(rty)}(\"r{k}\", r)\n\n")
         else:
-            text.append(f"@guppy\ndef f{k}({ps}) -> None:\n    result(\"v{k}\", {ex})\n\n")
+            text.append(f"@guppy\ndef f{k}({ps}) -> None:\n    {rfn(rty)}(\"v{k}\", {ex})\n\n")
         cols = [vals_for(t, rng, 12) for t in tys]
         for row in zip(*cols):
             try:
@@ -353,9 +362,6 @@ def run_case(ctx, rng, idx, params, tier):
         got = [stream[pos + i][1] for i in range(need)]
         pos += need
         got_n = [int(g) if isinstance(g, bool) else g for g in got]
-        if rty == "nat":
-            # installed selene reports u64 results >= 2^63 as negative numbers
-            got_n = [g + U64 if isinstance(g, int) and g < 0 else g for g in got_n]
         exp_l = list(exp) if isinstance(exp, tuple) else [exp]
         ok = True
         for g, e in zip(got_n, exp_l):
@@ -404,9 +410,9 @@ def replay(ctx, w):
     ps = ", ".join(f"a{i}: {t}" for i, t in enumerate(tys))
     ex = expr_src(op, [f"a{i}" for i in range(len(tys))])
     if op == "divmod":
-        body = f"    q, r = {ex}\n    result(\"q\", q)\n    result(\"r\", r)\n"
+        body = f"    q, r = {ex}\n    {rfn(rty)}(\"q\", q)\n    {rfn(rty)}(\"r\", r)\n"
     else:
-        body = f"    result(\"v\", {ex})\n"
+        body = f"    {rfn(rty)}(\"v\", {ex})\n"
     text = (HDR + f"@guppy\ndef f({ps}) -> None:\n{body}\n@guppy\ndef main() -> None:\n"
             f"    f({', '.join(lit(t, v) for t, v in zip(tys, row))})\n")
     ld = ctx.load(text)
